@@ -170,6 +170,8 @@ def execute(spec, count_lines=False):
                 if op.get("expect") == "refuse":
                     if read(name) != had:
                         fail("C17.refuse", i, op, classify(rt, exc), f"refused save to {name!r} still touched the file")
+                        if name in known:
+                            known[name] = read(name)
                 else:
                     fail("C17.save_raises", i, op, classify(rt, exc), f"save({name!r}) raised {type(exc).__name__}")
                     known[name] = read(name)
@@ -381,7 +383,11 @@ class Program:
                         sess.step(e)
                         ops.append({"op": "save", "file": name, "path_kind": rng.choice(["str", "Path"])})
                 if rng.random() < 0.15:
-                    ops.append({"op": "save", "file": rng.choice(BAD_NAMES), "path_kind": rng.choice(["str", "Path"]), "expect": "refuse"})
+                    bad = rng.choice(BAD_NAMES)
+                    if rng.random() < 0.5:
+                        # somebody else's file under the refused name: a refused save must not touch it
+                        ops.append({"op": "prewrite", "file": bad, "prestate": rng.choice(["shorter", "longer", "equalish"])})
+                    ops.append({"op": "save", "file": bad, "path_kind": rng.choice(["str", "Path"]), "expect": "refuse"})
         return {"format": 1, "property": PROP, "world": world, "ops": ops}
 
 
